@@ -73,11 +73,11 @@ def species_list(rng, n, real=0.6, maxlen=6):
 
 # ------------------------------------------------------------------ forms
 
-def gen_form(rng, reg0=False, positive=False, smooth=False, names=None, rmax=20.0):
+def gen_form(rng, reg0=False, positive=False, smooth=False, names=None, rmax=20.0, strict0=False):
   """Random built-in form with in-domain parameters.
   reg0: finite at r = 0 (value only).  positive: strictly positive, moderate, for r in [0, 30]."""
   if positive:
-    c = rng.choice(["constant", "bornmayer", "polynomial", "exp_spline"])
+    c = rng.choice(["constant", "polynomial", "exp_spline"] if strict0 else ["constant", "bornmayer", "polynomial", "exp_spline"])
     if c == "constant":
       return {"k": "form", "name": "constant", "p": [rfloat(rng, 0.5, 3.0)]}
     if c == "bornmayer":
@@ -89,6 +89,10 @@ def gen_form(rng, reg0=False, positive=False, smooth=False, names=None, rmax=20.
                    "sqrt", "tang_toennies", "zbl", "zero", "exp_spline"]
   if reg0:
     pool = [n for n in pool if n in ("buck", "bornmayer", "constant", "exponential", "morse", "polynomial", "sqrt", "zero", "exp_spline")]
+    if strict0:
+      # buck(C=0) and bornmayer evaluate 0.0/r**6 and raise at exactly r = 0 (outside C06's r > 0 domain);
+      # through the API nothing shields r = 0, so leave them out there
+      pool = [n for n in pool if n not in ("buck", "bornmayer")]
   name = rng.choice(pool)
   return {"k": "form", "name": name, "p": gen_form_params(rng, name, reg0, rmax=rmax)}
 
@@ -300,7 +304,7 @@ def gen_node(rng, depth=2, route="potable", reg0=False, positive=False, smooth=F
       return {"k": "sum", "a": [gen_node(rng, depth - 1, route, reg0, True, smooth) for _ in range(2)]}
     if depth > 0 and c < 0.4:
       return {"k": "product", "a": [gen_node(rng, depth - 1, route, reg0, True, smooth) for _ in range(2)]}
-    return gen_form(rng, positive=True)
+    return gen_form(rng, positive=True, strict0=(reg0 and route == "api"))
   weights = {"form": 5.0}
   if depth > 0:
     weights.update({"sum": 1.6, "product": 1.2, "pow": 0.7, "ranges": 1.0, "spline": 0.8, "buck4": 0.3})
@@ -327,7 +331,7 @@ def gen_node(rng, depth=2, route="potable", reg0=False, positive=False, smooth=F
   k = rng.choices(ks, [weights[x] for x in ks])[0]
   sub = lambda **kw: gen_node(rng, depth - 1, route, kw.get("reg0", reg0), kw.get("positive", False), smooth, forms, tables, kinds, rmax)
   if k == "form":
-    return gen_form(rng, reg0=reg0, smooth=smooth, rmax=rmax + 2.5)
+    return gen_form(rng, reg0=reg0, smooth=smooth, rmax=rmax + 2.5, strict0=(reg0 and route == "api"))
   if k in ("sum", "product"):
     return {"k": k, "a": [sub() for _ in range(rng.choice([2, 2, 3, 4]))]}
   if k == "pow":
@@ -372,7 +376,7 @@ def gen_spline(rng, route="potable", reg0=False, forms=None, tables=None, kind=N
   else:
     rmin = round(rd + rfloat(rng, 0.3, 0.9, 2), 3)
     ra = round(rmin + rfloat(rng, 0.3, 1.0, 2), 3)
-  sname = rng.choice(["bornmayer", "morse", "polynomial", "buck"] if reg0 else SMOOTH_START)
+  sname = rng.choice((["morse", "polynomial"] if route == "api" else ["bornmayer", "morse", "polynomial", "buck"]) if reg0 else SMOOTH_START)
   ename = rng.choice(["buck", "bornmayer", "morse", "polynomial", "lj", "hbnd", "coul", "constant"])
   start = {"k": "form", "name": sname, "p": gen_form_params(rng, sname, reg0)}
   end = {"k": "form", "name": ename, "p": gen_form_params(rng, ename)}
@@ -538,3 +542,133 @@ def gen_pair_model(rng, route="potable", npots=None, reg0=False, depth=2, target
   model = {"type": "pair", "target": target, "tab": {"nr": nr, "cutoff": cutoff}, "forms": forms, "tables": tables,
            "pair": [[a, b, gen_node(rng, depth, route, reg0=reg0, forms=forms, tables=tables, rmax=cutoff * rmax_scale(nr))] for a, b in pairs]}
   return model
+
+
+# ------------------------------------------------------------------ EAM models
+
+ELEMENT_DATA = {"Al": (13, 26.98), "Cu": (29, 63.55), "Ni": (28, 58.69), "Fe": (26, 55.85), "Ag": (47, 107.87),
+                "Au": (79, 196.97), "U": (92, 238.03), "O": (8, 16.00), "Gd": (64, 157.25), "Si": (14, 28.09),
+                "Mg": (12, 24.31), "Zr": (40, 91.22), "H": (1, 1.008), "He": (2, 4.003), "Xe": (54, 131.29),
+                "Ti": (22, 47.87)}
+LATTICES = ["fcc", "bcc", "hcp", "dia", "sc"]
+
+
+def gen_eam_model(rng, kind="eam", route="potable", nspecies=None, target=None, depth=1, underspecified=0.25,
+                  grids=None, with_forms=True, unique_density=False):
+  """EAM / Finnis-Sinclair / ADP model.
+
+  embed: [[A, node]...] in declaration order (defines the element order);
+  density: [[A, node]] (eam, adp) or [[A, B, node]] (fs: density at an A site from a B neighbour);
+  pair / dipole / quadrupole: any subset of unordered pairs in either species order."""
+  n = nspecies or rng.choice([1, 2, 2, 3, 3, 4])
+  sp = species_list(rng, n, real=0.7, maxlen=5)
+  # no label may contain '-' or '>' (they are key syntax); our alphabet has neither
+  tables, forms = [], []
+  if with_forms and rng.random() < 0.4:
+    tables = [gen_table(rng, ident(rng, set(), (3, 6)), lo=0.0, hi=rfloat(rng, 30.0, 120.0, 1))]
+  if with_forms and route == "potable" and rng.random() < 0.5:
+    forms = gen_custom_forms(rng, rng.choice([1, 2]), reg0=True, tables=tables)
+  g = grids or {}
+  nr = g.get("nr") or rng.choice([2, 3, 5, 8, 17, 50, 101, 300])
+  nrho = g.get("nrho") or rng.choice([2, 3, 4, 7, 20, 64, 300])
+  cutoff = g.get("cutoff") or cutoff_choice(rng)
+  cutoff_rho = g.get("cutoff_rho") or rng.choice([1.0, 5.0, 10.0, 50.0, 100.0, rfloat(rng, 0.5, 100.0, 2), rng.uniform(1, 100)])
+  rmax = max(cutoff, cutoff_rho)
+
+  def fn(d=depth):
+    return gen_node(rng, d, route, reg0=True, forms=forms, tables=tables, rmax=rmax)
+
+  species = {}
+  for s in sp:
+    props = {}
+    if s not in ELEMENT_DATA:
+      props["atomic_number"] = rng.randint(1, 118)
+      props["atomic_mass"] = rfloat(rng, 1.0, 250.0, 3)
+    else:
+      if rng.random() < 0.3:
+        props["atomic_mass"] = rfloat(rng, 1.0, 250.0, 3)
+      if rng.random() < 0.2:
+        props["atomic_number"] = rng.randint(1, 118)
+    if rng.random() < 0.5:
+      props["lattice_constant"] = rfloat(rng, 2.0, 6.0, 3)
+    if rng.random() < 0.5:
+      props["lattice_type"] = rng.choice(LATTICES)
+    if props:
+      species[s] = props
+  embed_sp = list(sp)
+  rng.shuffle(embed_sp)
+  dens_sp = list(sp)
+  # under-specified systems: a species present in only one of the two sections
+  if n >= 2 and rng.random() < underspecified and route == "potable":
+    if rng.random() < 0.5:
+      embed_sp = embed_sp[:-1]
+    else:
+      dens_sp = [s for s in dens_sp if s != embed_sp[0]] if kind != "fs" else dens_sp
+  embed = [[s, fn()] for s in embed_sp]
+  if kind == "fs":
+    density = []
+    k = 0
+    for a in sp:
+      for b in sp:
+        if rng.random() < 0.8 or (a == sp[0] and b == sp[-1]):
+          k += 1
+          if unique_density:
+            node = {"k": "form", "name": "polynomial", "p": [0.0, float(UNIQUE_PRIMES[k % len(UNIQUE_PRIMES)]) / 100.0]}
+          else:
+            node = fn()
+          density.append([a, b, node])
+    rng.shuffle(density)
+    if not density:
+      density = [[sp[0], sp[0], fn()]]
+  else:
+    density = [[s, fn()] for s in dens_sp]
+    rng.shuffle(density)
+
+  def pair_subset(p=0.7):
+    out = []
+    for i in range(len(sp)):
+      for j in range(i, len(sp)):
+        if rng.random() < p:
+          a, b = (sp[i], sp[j]) if rng.random() < 0.5 else (sp[j], sp[i])
+          out.append([a, b, fn()])
+    rng.shuffle(out)
+    return out
+
+  if target is None:
+    target = {"eam": rng.choice(["setfl", "lammps_eam_alloy", "DL_POLY_EAM", "excel_eam"]),
+              "fs": rng.choice(["setfl_fs", "DL_POLY_EAM_fs", "excel_eam_fs"]), "adp": "eam_adp"}[kind]
+  model = {"type": kind, "target": target, "tab": {"nr": nr, "cutoff": cutoff, "nrho": nrho, "cutoff_rho": cutoff_rho},
+           "forms": forms, "tables": tables, "species": species, "embed": embed, "density": density,
+           "pair": pair_subset(), "all_species": sp}
+  if kind == "adp":
+    model["dipole"] = pair_subset(0.6)
+    model["quadrupole"] = pair_subset(0.6)
+  return model
+
+
+UNIQUE_PRIMES = [101, 103, 107, 109, 113, 127, 131, 137, 139, 149, 151, 157, 163, 167, 173, 179, 181, 191, 193, 197, 199, 211, 223, 227, 229]
+
+
+def eam_element_order(model):
+  """Header order: [EAM-Embed] declaration order, followed by zero-filled species (those
+  named only by density entries) in sorted order."""
+  order = [a for a, _ in model["embed"]]
+  extra = set()
+  for ent in model["density"]:
+    for s in ent[:-1]:
+      if s not in order:
+        extra.add(s)
+  return order + sorted(extra)
+
+
+def eam_expected_metadata(model, species):
+  """(Z, mass, a0, lattice) by precedence [Species] > built-in table > (0.0, fcc)."""
+  ov = (model.get("species") or {}).get(species, {})
+  base = ELEMENT_DATA.get(species)
+  Z = ov.get("atomic_number", base[0] if base else None)
+  mass = ov.get("atomic_mass", base[1] if base else None)
+  mass_exact = "atomic_mass" in ov
+  return Z, mass, mass_exact, ov.get("lattice_constant", 0.0), ov.get("lattice_type", "fcc")
+
+
+ZERO = {"k": "form", "name": "zero", "p": []}
